@@ -243,6 +243,7 @@ func runC17(c *Ctx, r *Report) {
 		"CreateEntryWithIO reaches the block store: "+strings.Join(pathTo, " → ")+" → Dag().Add", "CreateEntryWithIO no longer reaches an IO.Write implementation: the appended entry is never written")
 	// inside CreateEntryWithIO: SetHash and the success return are dominated by the nil edge of the writer's error
 	writeErr := map[types.Object]bool{}
+	writeCalls := map[*ast.CallExpr]bool{}
 	var hashVar types.Object
 	walkNoLit(create.Body, func(n ast.Node) bool {
 		as, ok := n.(*ast.AssignStmt)
@@ -260,6 +261,7 @@ func runC17(c *Ctx, r *Report) {
 						if _, ok := sub[w]; ok {
 							if id, ok := as.Lhs[1].(*ast.Ident); ok {
 								writeErr[p.ObjOf(create, id)] = true
+								writeCalls[call] = true
 							}
 							if id, ok := as.Lhs[0].(*ast.Ident); ok {
 								hashVar = p.ObjOf(create, id)
@@ -272,18 +274,20 @@ func runC17(c *Ctx, r *Report) {
 		return true
 	})
 	r.Floor("R-C17.1", "block-writing calls in CreateEntryWithIO", len(writeErr), 1)
-	cfl := &Flow{P: p, Fn: create, Entry: Facts{}}
-	cfl.Edge = func(cond ast.Expr, taken bool, f Facts) {
-		for _, a := range splitCond(cond, taken) {
-			if x, isNil, ok := nilTest(a); ok && isNil {
-				if id, ok := ast.Unparen(x).(*ast.Ident); ok && writeErr[p.ObjOf(create, id)] {
-					f["written"] = true
-				}
-			}
+	// the nil edge counts only while err still holds the writer's result (err is re-used in this function); a
+	// later assignment to err from another call does not un-write the block, the earned fact stays
+	cg := &resultGate{p: p, fn: create, producer: func(call *ast.CallExpr) string {
+		if writeCalls[call] {
+			return "written"
 		}
-	}
-	cfl.Node = func(n ast.Node, f Facts) {
-		// err is reused: a later assignment to it from another call does not un-write the block, keep the fact
+		return ""
+	}}
+	cfl := &Flow{P: p, Fn: create, Entry: Facts{}, Node: cg.Node}
+	cfl.Edge = func(cond ast.Expr, taken bool, f Facts) {
+		cg.Edge(cond, taken, f)
+		if f["ok|written"] {
+			f["written"] = true
+		}
 	}
 	cfl.Run()
 	cfl.Exits(func(_ *cfgBlk, ret *ast.ReturnStmt, at Facts) {
@@ -315,6 +319,7 @@ func runC17(c *Ctx, r *Report) {
 	r.Floor("R-C17.1", "SetHash in CreateEntryWithIO", nSetHash, 1)
 	// in Append: state changes and the success return dominated by creation success
 	createErr := map[types.Object]bool{}
+	createCalls := map[*ast.CallExpr]bool{}
 	var entryVar types.Object
 	walkNoLit(app.Body, func(n ast.Node) bool {
 		as, ok := n.(*ast.AssignStmt)
@@ -326,6 +331,7 @@ func runC17(c *Ctx, r *Report) {
 				if _, ok := c.CG.Reach([]*Fn{p.ByObj[cf]}, false)[create]; ok {
 					if id, ok := as.Lhs[1].(*ast.Ident); ok {
 						createErr[p.ObjOf(app, id)] = true
+						createCalls[call] = true
 					}
 					if id, ok := as.Lhs[0].(*ast.Ident); ok {
 						entryVar = p.ObjOf(app, id)
@@ -337,14 +343,17 @@ func runC17(c *Ctx, r *Report) {
 	})
 	r.Floor("R-C17.1", "entry-creating calls in Append", len(createErr), 1)
 	fields := map[*types.Var]bool{p.Field("", "IPFSLog", "Entries"): true, p.Field("", "IPFSLog", "Next"): true, p.Field("", "IPFSLog", "heads"): true}
-	afl := &Flow{P: p, Fn: app, Entry: Facts{}}
+	ag := &resultGate{p: p, fn: app, producer: func(call *ast.CallExpr) string {
+		if createCalls[call] {
+			return "written"
+		}
+		return ""
+	}}
+	afl := &Flow{P: p, Fn: app, Entry: Facts{}, Node: ag.Node}
 	afl.Edge = func(cond ast.Expr, taken bool, f Facts) {
-		for _, a := range splitCond(cond, taken) {
-			if x, isNil, ok := nilTest(a); ok && isNil {
-				if id, ok := ast.Unparen(x).(*ast.Ident); ok && createErr[p.ObjOf(app, id)] {
-					f["written"] = true
-				}
-			}
+		ag.Edge(cond, taken, f)
+		if f["ok|written"] {
+			f["written"] = true
 		}
 	}
 	afl.Run()
@@ -451,6 +460,10 @@ func runC17(c *Ctx, r *Report) {
 
 	// ---- R-C17.5: a manifest identifier handed out was produced by this very call
 	r.Doc("R-C17.5", "every manifest identifier returned by ToMultihash comes from a write performed by that call (no remembered identifier: a cached one can be older than an append that already returned)")
+	r.Doc("R-C17.6", "on the write path every error result is examined before it is overwritten: a failed encode, sign or block write is never followed by a success return")
+	errDiscipline(c, r, "R-C17.6", func(fn *Fn) bool {
+		return rootNamed(fn, "Write", "CreateEntryWithIO", "CreateEntry", "ToMultihashWithIO", "ToMultihash", "toMultihash", "Append", "WriteCBOR")
+	}, "the operation reports success (and hands out an identifier) although a step of writing the block failed", deliberateDiscards)
 	nm := 0
 	for _, t := range []struct{ recv, name string }{{"IPFSLog", "ToMultihash"}, {"", "toMultihash"}} {
 		fn := p.FuncI("", t.recv, t.name)
